@@ -3,23 +3,26 @@
 (* macro action ("Consume") once its six internal steps have run.              *)
 EXTENDS MC_CGlueObj, Json
 CONSTANT Depth
-VARIABLE hist
+VARIABLES hist,
+          fin   \* the behaviour is complete (see Gen_CArc)
 
-GenInit == Init /\ hist = <<>>
+GenInit == Init /\ hist = <<>> /\ fin = FALSE
 
 MacroActions == {e \in Actions : e.op \notin {"Consume", "ConsumeEnd"}}
 
-GenNext ==
+GenStep ==
   IF stack # <<>>
     THEN IF stack[1].phase = "returned"
-           THEN \E y \in (IF stack[1].m = "ob_take" THEN {stack[1].x} ELSE Dst) :
+           THEN \E y \in (IF NoChild(stack[1].m) THEN {stack[1].x} ELSE Dst) :
                   /\ ConsumeCallerRelease(y)
                   /\ hist' = Append(hist, [a |-> [op |-> "Consume", x |-> stack[1].x, m |-> stack[1].m, y |-> y], exp |-> Proj'])
            ELSE ConsumeInternal /\ UNCHANGED hist
     ELSE /\ Len(hist) < Depth
          /\ \/ \E e \in MacroActions : Do(e) /\ hist' = Append(hist, [a |-> e, exp |-> Proj'])
-            \/ "Consume" \in Ops /\ \E x \in Used, m \in {"ob_take", "ob_into"} : ConsumeBegin(x, m) /\ UNCHANGED hist
+            \/ "Consume" \in Ops /\ \E x \in Used, m \in ConsumeMethods : ConsumeBegin(x, m) /\ UNCHANGED hist
 
-GenSpec == GenInit /\ [][GenNext]_<<vars, hist>>
-Emit == (Len(hist) = Depth /\ stack = <<>>) => PrintT(<<"REPLAY", ToJson(hist)>>)
+GenNext == \/ ~fin /\ GenStep /\ UNCHANGED fin
+           \/ ~fin /\ Len(hist) = Depth /\ stack = <<>> /\ fin' = TRUE /\ UNCHANGED <<vars, hist>>
+GenSpec == GenInit /\ [][GenNext]_<<vars, hist, fin>>
+Emit == fin => PrintT(<<"REPLAY", ToJson(hist)>>)
 =============================================================================
